@@ -212,6 +212,16 @@ def _getattr(it, f, args, kw, node):
         raise
 
 
+@reg('object.__init__')
+def _object_init(it, f, args, kw, node):
+    return None
+
+
+@reg('builtins.super')
+def _super(it, f, args, kw, node):
+    raise Unsupported('super() in a form the executor does not model')
+
+
 @reg('builtins.setattr')
 def _setattr(it, f, args, kw, node):
     o, name, v = args
